@@ -1516,13 +1516,25 @@ func runCrashCase(h *verifx.H, ci int, r *verifx.Rng) {
 		}
 		h.Op("recover %s %d %s %d", verifx.List(ir), ioff, descr(entries), torn)
 		e, err := openReal(dir, true, time.Hour)
+		if err != nil && torn == 1 && strings.Contains(err.Error(), "current position in file is not equal file size") {
+			// known finding: the writer refuses a file that is longer than the reader's position. Nothing else is
+			// claimed about this restart; repair the file the way an operator would (cut the partial record off) and go on.
+			h.Obs("open-error")
+			h.Viol("restart-failed-torn-tail", "engine did not reopen after a kill that left %d bytes of an unfinished write at the end of the binlog (db offset %d, last complete record ends at %d): %v", fileBytes-end, ioff, end, err)
+			files, _ := filepath.Glob(filepath.Join(dir, "bl.*.bin"))
+			last := files[len(files)-1]
+			st, serr := os.Stat(last)
+			if serr != nil || os.Truncate(last, st.Size()-(fileBytes-end)) != nil {
+				return
+			}
+			h.Stat("kill.torn-tail-repaired-by-hand", 1)
+			torn = 0
+			h.Op("recover %s %d %s %d", verifx.List(ir), ioff, descr(entries), torn)
+			e, err = openReal(dir, true, time.Hour)
+		}
 		if err != nil {
 			h.Obs("open-error")
-			if torn == 1 {
-				h.Viol("restart-failed-torn-tail", "engine did not reopen after a kill that left %d bytes of an unfinished write at the end of the binlog (db offset %d, last complete record ends at %d): %v", fileBytes-end, ioff, end, err)
-			} else {
-				h.Viol("restart-failed", "engine did not reopen after the kill (db offset %d, binlog end %d): %v", ioff, end, err)
-			}
+			h.Viol("restart-failed", "engine did not reopen after the kill (db offset %d, binlog end %d, torn tail %d): %v", ioff, end, torn, err)
 			return
 		}
 		var tr []int
